@@ -21,17 +21,17 @@ EPS = ("", "", "", "")  # (under, stack, quote, last significant character)
 
 class St:
     """bufs: name -> (under, stack, quote)"""
-    __slots__ = ("bufs", "memo", "bad")
+    __slots__ = ("bufs", "memo", "bad", "hole", "dirty")
 
-    def __init__(self, bufs=None, memo=(), bad=None):
+    def __init__(self, bufs=None, memo=(), bad=None, hole=None, dirty=frozenset()):
         self.bufs = bufs if bufs is not None else {"$w": EPS}
-        self.memo, self.bad = memo, bad
+        self.memo, self.bad, self.hole, self.dirty = memo, bad, hole, dirty
 
     def key(self):
-        return (tuple(sorted(self.bufs.items())), self.memo, self.bad)
+        return (tuple(sorted(self.bufs.items())), self.memo, self.bad, self.hole, self.dirty)
 
     def copy(self, **kw):
-        s = St(dict(self.bufs), self.memo, self.bad)
+        s = St(dict(self.bufs), self.memo, self.bad, self.hole, self.dirty)
         for k, v in kw.items():
             setattr(s, k, v)
         return s
@@ -40,7 +40,7 @@ class St:
         return self.bufs.get(name, EPS)
 
 
-def scan_eff(eff, text, bad=None):
+def scan_eff(eff, text, bad=None, holes=None):
     under, stack, quote, last = eff
     i = 0
     n = len(text)
@@ -69,6 +69,8 @@ def scan_eff(eff, text, bad=None):
         elif c == ",":
             if bad is None and stack and stack[-1] == "(" and last in (",", "("):
                 bad = "`%s,` inside parentheses: an empty argument (writing `%s`)" % (last, text[:40])
+            if holes is not None and stack and stack[-1] == "[" and last in (",", "["):
+                holes.append("`%s,` inside an array literal: an empty element (writing `%s`)" % (last, text[:40]))
             last = ","
         elif not c.isspace():
             last = "x"
@@ -77,13 +79,18 @@ def scan_eff(eff, text, bad=None):
 
 
 def scan(st, text, target="$w"):
-    e, bad = scan_eff(st.eff(target), text, st.bad)
+    hs = []
+    e, bad = scan_eff(st.eff(target), text, st.bad, hs)
     s = st.copy(bad=bad)
+    if target != "$w" and text:
+        s.dirty = s.dirty | {target}
+    if hs and st.hole is None:
+        s.hole = hs[0]
     s.bufs[target] = e
     return s
 
 
-def inline(st, target, eff):
+def inline(st, target, eff, mark=True):
     """append text whose bracket effect is `eff` to buffer `target`"""
     cur = st.eff(target)
     if cur[2]:
@@ -92,6 +99,8 @@ def inline(st, target, eff):
     e = (e[0], e[1] + eff[1], eff[2], eff[3] or "x")  # a pasted buffer counts as some text
     s = st.copy(bad=bad)
     s.bufs[target] = e
+    if target != "$w" and mark:
+        s.dirty = s.dirty | {target}
     return s
 
 
@@ -143,6 +152,8 @@ class Analyzer:
         self.problems = {}
         self.nontrivial = set()
         self.writers = set()
+        self.holes = {}
+        self.dropped = {}
         self.cur = None
 
     # ---------------------------------------------------------------- summaries
@@ -176,6 +187,8 @@ class Analyzer:
         for s, rexpr in term:
             if s.bad:
                 probs.append(s.bad)
+            if s.hole:
+                self.holes.setdefault(f.qual, set()).add(s.hole)
             name = self._returned_buffer(rexpr)
             w = s.eff("$w")
             if name and name in s.bufs:
@@ -239,7 +252,9 @@ class Analyzer:
                 rest = []
                 for s in cur:
                     if nm and nm in s.bufs and nm != "$w":
-                        nxt.append(inline(s, target_of(s), s.eff(nm)))
+                        s2 = inline(s, target_of(s), s.eff(nm))
+                        s2.dirty = s2.dirty - {nm}
+                        nxt.append(s2)
                     else:
                         rest.append(s)
                 if rest:
@@ -304,7 +319,7 @@ class Analyzer:
             keep = _simple_name(tail.get("e")) if tail is not None and tail.get("k") == "expr" and not tail.get("semi") else None
             if keep in declared:
                 declared.discard(keep)
-            R["normal"] = [self._drop_all(s, declared) for s in cur]
+            R["normal"] = [self._drop_all(s, declared, scope_end=True) for s in cur]
             for st in ("break", "continue"):
                 R[st] = [self._drop_all(s, declared) for s in R[st]]
             return self._dd(R)
@@ -349,6 +364,10 @@ class Analyzer:
             return self._dd(R)
         if k == "expr":
             return self.walk(n["e"], states, env, probs)
+        if k == "path" and len(n.get("segs", [])) == 1:
+            nm0 = n["segs"][0]
+            R["normal"] = [s.copy(dirty=s.dirty - {nm0}) if nm0 in s.dirty else s for s in states]
+            return R
         if k in ("item", "closure", "mac", "lit", "path"):
             R["normal"] = states
             return R
@@ -475,8 +494,9 @@ class Analyzer:
             if n.get("e") is not None:
                 r = self.walk(n["e"], cur, env, probs)
                 cur = r["normal"]
+            rn_ = self._returned_buffer(n.get("e"))
             for s in cur:
-                env["ret"].append((s, n.get("e")))
+                env["ret"].append((s.copy(dirty=s.dirty - {rn_}) if rn_ in s.dirty else s, n.get("e")))
             return R
         if k == "break":
             R["break"] = states
@@ -547,13 +567,17 @@ class Analyzer:
             return s2
         return s
 
-    def _drop_all(self, s, names):
+    def _drop_all(self, s, names, scope_end=False):
         hit = [x for x in names if x in s.bufs and x != "$w"]
         if not hit:
             return s
         s2 = s.copy()
         for x in hit:
             del s2.bufs[x]
+            if x in s2.dirty:
+                if scope_end and self.cur is not None:
+                    self.dropped.setdefault(self.cur.qual, set()).add(x)
+                s2.dirty = s2.dirty - {x}
         return s2
 
     def _shadow(self, states, pat):
@@ -564,6 +588,8 @@ class Analyzer:
         if src in s.bufs and src != "$w":
             s2 = s.copy()
             s2.bufs[name] = s.bufs[src]
+            if src in s2.dirty:
+                s2.dirty = (s2.dirty - {src}) | {name}
             return s2
         return self._drop(s, name)
 
@@ -588,6 +614,9 @@ class Analyzer:
                 for st in ("return", "break", "continue"):
                     R[st] += r[st]
                 cur = r["normal"]
+                an = _simple_name(a)
+                if an:
+                    cur = [s.copy(dirty=s.dirty - {an}) if an in s.dirty else s for s in cur]
         base = name.split("::")[-1]
         if n.get("k") == "call" and n["f"].get("k") == "path" and len(n["f"]["segs"]) == 1:
             v = n["f"]["segs"][0]
@@ -614,7 +643,7 @@ class Analyzer:
         out = []
         for s in cur:
             tgt = next((b for b in out_bufs if b in s.bufs), None) or (tgt_fn(s) if tgt_fn else "$w")
-            out.append(inline(s, tgt, ("", "", "", "x")) if wrote else s)
+            out.append(inline(s, tgt, ("", "", "", "x"), mark=False) if wrote else s)
         cur = dedup(out)
         for c in clos:
             sub = dict(env, closures=dict(env["closures"]), ret=[])
